@@ -214,7 +214,6 @@ type world struct {
 	staleAllowed bool          // a SetHead / restart left head block != head header at some point
 	shStale      map[int]int   // tx -> height of a lookup entry left behind by SetHead
 	shReported   map[int]bool
-	staleAPI     map[int]common.Hash // tx -> block hash of a stale cached lookup already reported
 }
 
 func (w *world) buildBlocks() {
@@ -581,25 +580,14 @@ func (w *world) oracle(e evs, op opInfo, res *Result) (real, known []string) {
 					okAPI = false
 				}
 			}
-			if okAPI || w.staleAPI[t] != alk.BlockHash {
-				delete(w.staleAPI, t)
-			}
 			switch {
 			case okAPI:
-			case w.staleAPI[t] == alk.BlockHash:
-				// the same stale cached answer, already reported at the operation that left it behind
 			case linkedOnly && int(alk.BlockIndex) > headNum:
 				addKnown("C38-linked-canon-above-head-header", "GetCanonicalTransaction(tx %d) answers block #%d above head #%d", t, alk.BlockIndex, headNum)
-			case op.splitBefore && (op.kind == 0 || op.kind == 1 || op.kind == 2) && (tx == nil || bh != alk.BlockHash) &&
-				int(alk.BlockIndex) < len(op.before) && w.blocks[op.before[alk.BlockIndex]].Hash() == alk.BlockHash:
-				// writeHeadBlock replaced the canonical block at its height without a reorg (head block
-				// below head header): markers are fixed up (337872da5f) but txLookupCache is not purged
-				w.staleAPI[t] = alk.BlockHash
-				addKnown("C38-stale-txlookup-cache-after-head-replace", "GetCanonicalTransaction(tx %d) still answers block %d (#%d), canonical before the operation, not any more", t, w.id(alk.BlockHash), alk.BlockIndex)
 			default:
 				addReal("GetCanonicalTransaction(tx %d) answers block %d (#%d), which is not the canonical block holding it", t, w.id(alk.BlockHash), alk.BlockIndex)
 			}
-		} else if delete(w.staleAPI, t); isCanon && tx != nil {
+		} else if isCanon && tx != nil {
 			addReal("GetCanonicalTransaction(tx %d) answers nothing although the tx is in canonical block #%d", t, n)
 		}
 		// database level: an entry points to the canonical block holding the tx
@@ -758,7 +746,7 @@ func (w *world) oracle(e evs, op opInfo, res *Result) (real, known []string) {
 
 func run(c Sx) Result {
 	cs := parseCase(c)
-	w := &world{cs: cs, db: rawdb.NewMemoryDatabase(), gspec: genesisSpec(), view: map[int64]int{}, shStale: map[int]int{}, shReported: map[int]bool{}, staleAPI: map[int]common.Hash{}}
+	w := &world{cs: cs, db: rawdb.NewMemoryDatabase(), gspec: genesisSpec(), view: map[int64]int{}, shStale: map[int]int{}, shReported: map[int]bool{}}
 	// The tx indexer runs (TxLookupLimit = 0) over a database marked as fully indexed
 	// (tail 0): its background pass then has nothing to write, so every lookup entry
 	// observed is one maintained synchronously by writeHeadBlock / reorg.  (With the tail
@@ -873,7 +861,7 @@ func run(c Sx) Result {
 	// prefix can never hide one of them
 	// (and the rarer recorded deviations before the frequent ones, so each gets listed)
 	prio := func(m string) int {
-		for i, id := range []string{"C38-stale-txlookup", "C38-linked-canon", "C38-setcanonical", "C38-known-reimport", "C38-sethead-no-removed", "C38-sethead-stale"} {
+		for i, id := range []string{"C38-linked-canon", "C38-setcanonical", "C38-known-reimport", "C38-sethead-no-removed", "C38-sethead-stale"} {
 			if strings.HasPrefix(m, id) {
 				return i
 			}
